@@ -150,6 +150,7 @@ type textEdit struct {
 	file       string
 	start, end int
 	text       string
+	helper     string // key of the helper this edit splices (SplicedHelpers)
 }
 
 // Normalize returns an overlay in which new private helpers are spliced into their call sites, plus notes for the evidence.
@@ -200,6 +201,10 @@ func Normalize(repo string, overlay map[string][]byte) (map[string][]byte, []str
 				if e.end <= lastStart {
 					kept = append(kept, e)
 					lastStart = e.start
+				} else if e.helper != "" {
+					// dropped because it overlaps an enclosing edit: the helper still has a call site; it is looked at
+					// again in the next round
+					delete(SplicedHelpers, e.helper)
 				}
 			}
 			out := append([]byte{}, src...)
@@ -208,7 +213,25 @@ func Normalize(repo string, overlay map[string][]byte) (map[string][]byte, []str
 			}
 			// missing imports
 			if imps := imports[file]; len(imps) > 0 {
-				out = addImports(out, imps)
+				real := map[string]string{}
+				var aliases []string
+				for n, p := range imps {
+					if strings.HasPrefix(n, "\x00type:") {
+						aliases = append(aliases, strings.TrimPrefix(n, "\x00type:")+" = "+p)
+					} else {
+						real[n] = p
+					}
+				}
+				if len(real) > 0 {
+					out = addImports(out, real)
+				}
+				sort.Strings(aliases)
+				for _, a := range aliases {
+					decl := "\ntype " + a + "\n"
+					if !bytes.Contains(out, []byte(decl)) {
+						out = append(out, []byte(decl)...)
+					}
+				}
 			}
 			cur[file] = out
 		}
@@ -436,6 +459,10 @@ func collectInlineEdits(repo string, overlay map[string][]byte, known map[string
 					notes = append(notes, fmt.Sprintf("call of new function %s.%s at %s not spliced (%s)", pk.Name, h.decl.Name.Name, pk.Fset.Position(s.call.Pos()), why))
 					continue
 				}
+				{
+					rel, _ := filepath.Rel(repo, filepath.Dir(pk.Fset.Position(h.decl.Pos()).Filename))
+					e.helper = funcDeclKey(rel, h.decl)
+				}
 				edits = append(edits, e)
 				for n, p := range imps {
 					if imports[s.path] == nil {
@@ -574,6 +601,17 @@ func spliceSite(pk *packages.Package, overlay map[string][]byte, h *helperInfo, 
 			kind = "ifcond"
 			ifStmt = st
 		}
+	case *ast.ForStmt:
+		// for h(args) { body }  =>  for { <h spliced>; if !r0 { break }; body }   (no init / post statement)
+		if st.Cond != nil && st.Init == nil && st.Post == nil && sig.Results().Len() == 1 && !h.hasDefer {
+			c := ast.Unparen(st.Cond)
+			if u, ok := c.(*ast.UnaryExpr); ok && u.Op == token.NOT {
+				c = ast.Unparen(u.X)
+			}
+			if c == ast.Expr(s.call) {
+				kind = "forcond"
+			}
+		}
 	}
 	// the call sits somewhere inside a simple statement (an argument of another call, an operand): hoist it in front of the
 	// statement, provided it is evaluated unconditionally (no && / ||, no function literal, no selector of a go/defer)
@@ -626,6 +664,12 @@ func spliceSite(pk *packages.Package, overlay map[string][]byte, h *helperInfo, 
 			kind = "assign"
 		}
 		kind = "ifinit-" + kind
+	} else if kind == "forcond" {
+		switch parent.(type) {
+		case *ast.BlockStmt, *ast.CaseClause, *ast.CommClause:
+		default:
+			return textEdit{}, nil, "statement is not in a statement list"
+		}
 	} else if kind != "ifcond" {
 		switch parent.(type) {
 		case *ast.BlockStmt, *ast.CaseClause, *ast.CommClause:
@@ -642,6 +686,11 @@ func spliceSite(pk *packages.Package, overlay map[string][]byte, h *helperInfo, 
 	// name capture: package-level / universe names used by the callee must mean the same thing at the call site
 	inner := pk.Types.Scope().Innermost(s.call.Pos())
 	capture := ""
+	type typeRename struct {
+		at, n int
+		alias string
+	}
+	var typeRenames []typeRename
 	needImports := map[string]string{}
 	callerImports := map[string]string{} // name -> path
 	for _, is := range s.file.Imports {
@@ -679,6 +728,16 @@ func spliceSite(pk *packages.Package, overlay map[string][]byte, h *helperInfo, 
 		if obj.Parent() == pk.Types.Scope() || obj.Parent() == types.Universe {
 			if inner != nil {
 				if _, o := inner.LookupParent(id.Name, s.call.Pos()); o != obj {
+					// a package-level TYPE whose name is used for a variable at the call site (template, set, record ...):
+					// the spliced text refers to it through an alias of the same byte length, declared at the end of the file
+					if tn, isType := obj.(*types.TypeName); isType && obj.Parent() == pk.Types.Scope() && len(id.Name) >= 3 && !tn.IsAlias() {
+						alias := "\u039e" + id.Name[2:]
+						if ex := pk.Types.Scope().Lookup(alias); ex == nil || types.Identical(ex.Type(), obj.Type()) {
+							typeRenames = append(typeRenames, typeRename{off(id.Pos()), len(id.Name), alias})
+							needImports["\x00type:"+alias] = id.Name
+							return true
+						}
+					}
 					capture = "name " + id.Name + " is shadowed at the call site"
 				}
 			}
@@ -687,6 +746,13 @@ func spliceSite(pk *packages.Package, overlay map[string][]byte, h *helperInfo, 
 	})
 	if capture != "" {
 		return textEdit{}, nil, capture
+	}
+	if len(typeRenames) > 0 {
+		patched := append([]byte{}, calleeSrc...)
+		for _, tr := range typeRenames {
+			copy(patched[tr.at:tr.at+tr.n], []byte(tr.alias))
+		}
+		calleeSrc = patched
 	}
 
 	if kind == "lit" {
@@ -961,6 +1027,16 @@ func spliceSite(pk *packages.Package, overlay map[string][]byte, h *helperInfo, 
 		out.WriteString("\n" + lbl)
 		out.WriteString(text(callerSrc, ifStmt.Pos(), s.call.Pos()) + results + text(callerSrc, s.call.End(), ifStmt.End()))
 		out.WriteString(" }")
+	case "forcond":
+		fs := stmt.(*ast.ForStmt)
+		bodyPos := fset.Position(fs.Body.Lbrace)
+		out.WriteString("for { " + b.String())
+		out.WriteString(blk.String())
+		out.WriteString("\n" + lbl)
+		out.WriteString("if !(" + text(callerSrc, fs.Cond.Pos(), s.call.Pos()) + results + text(callerSrc, s.call.End(), fs.Cond.End()) + ") { break }")
+		fmt.Fprintf(&out, "\n//line %s:%d:%d\n", bodyPos.Filename, bodyPos.Line, bodyPos.Column+1)
+		out.WriteString(text(callerSrc, fs.Body.Lbrace+1, fs.Body.Rbrace))
+		out.WriteString("\n}")
 	case "ifinit-expr", "ifinit-assign":
 		out.WriteString("{ " + b.String())
 		out.WriteString(blk.String())
